@@ -10,6 +10,7 @@ import (
 	"os"
 	"os/exec"
 	"path/filepath"
+	"sort"
 	"strings"
 	"sync"
 )
@@ -62,6 +63,30 @@ func (c *Check) runSelfTests() {
 			pf := filepath.Join(d, "patch.diff")
 			if _, err := os.Stat(pf); err == nil {
 				mine = append(mine, variant{Property: c.Prop, Name: "seeded:" + filepath.Base(d), patchFile: pf})
+			}
+		}
+	}
+	// behaviour-preserving refactorings produced by sub-agents (refactors/<id>/patch.diff): the ones of
+	// this property and the ones on which this check once raised a false alarm must stay silent
+	if ib, err := os.ReadFile(filepath.Join(c.VerifDir, "refactors", "index.json")); err == nil {
+		var idx map[string]struct {
+			ReplayFor []string `json:"replay_for"`
+		}
+		if json.Unmarshal(ib, &idx) == nil {
+			var ids []string
+			for id, e := range idx {
+				for _, q := range e.ReplayFor {
+					if q == c.Prop {
+						ids = append(ids, id)
+					}
+				}
+			}
+			sort.Strings(ids)
+			for _, id := range ids {
+				pf := filepath.Join(c.VerifDir, "refactors", id, "patch.diff")
+				if _, err := os.Stat(pf); err == nil {
+					mine = append(mine, variant{Property: c.Prop, Name: "refactor:" + id, patchFile: pf, Preserving: true})
+				}
 			}
 		}
 	}
@@ -145,7 +170,7 @@ func (c *Check) runSelfTests() {
 		"variants":    results,
 		"applicable":  applicable,
 		"as_expected": ok,
-		"note":        "overlay variants of the current tree: canned single edits (selftest/variants.json) and the archived seeded changes of this property (seeded/<id>/patch.diff); breaking variants must fire (canned ones with a report naming the expected rule), behaviour-preserving ones must stay silent; evidence only",
+		"note":        "overlay variants of the current tree: canned single edits (selftest/variants.json), the archived seeded changes of this property (seeded/<id>/patch.diff) and behaviour-preserving refactorings (refactors/<id>/patch.diff, kind behaviour-preserving); breaking variants must fire (canned ones with a report naming the expected rule), behaviour-preserving ones must stay silent; evidence only",
 	}
 	fmt.Printf("  self-test: %d/%d applicable variants behaved as expected\n", ok, applicable)
 	for _, r := range results {
